@@ -138,6 +138,66 @@ def infeasible_items(tier):
     return out
 
 
+def history_items(tier):
+    out = []
+    for fl in list(F.flows(2, ("FS", "SS"), (2, 3)))[:: (2 if tier == "quick" else 1)]:
+        out.append(F.with_teams(fl, "POOL1"))
+        out.append(F.with_teams(fl, "DED"))
+    return out
+
+
+HIST_OPS = ("sim", "sim-abs", "insert", "remove", "back", "init")
+
+
+def work_history(chunk):
+    """activity on project A (and on B itself), then B.simulate(max_time=bound) with every other keyword left to its default: B is feasible and must complete"""
+    import itertools as _it
+
+    col = engines.Collector()
+    for sp in chunk:
+        info = Info(sp)
+        bound = F.seq_bound(sp) + 4
+        for hist in [h for n in (1, 2) for h in _it.product(HIST_OPS, repeat=n)]:
+            for on_b in (False, True):
+                a = S.build(sp)
+                b = S.build(sp)
+                tgt = b if on_b else a
+                try:
+                    for op in hist:
+                        if op == "sim":
+                            tgt.project.simulate(max_time=bound)
+                        elif op == "sim-abs":
+                            tgt.project.simulate(max_time=bound + 2, absence_time_list=[0, 1])
+                        elif op == "insert":
+                            tgt.project.insert_absence_time_list(list(range(0, bound + 6)))
+                        elif op == "remove":
+                            tgt.project.remove_absence_time_list()
+                        elif op == "back":
+                            tgt.project.backward_simulate(max_time=bound)
+                        elif op == "init":
+                            tgt.project.initialize()
+                except Exception:
+                    col.aborted["history-op-raised"] += 1
+                    continue
+                ex = runner.Exec(sp, {"max_time": bound, "history": list(hist), "history_on_same_project": on_b})
+                ex.m = b
+                try:
+                    b.project.simulate(max_time=bound)
+                except Exception as e:
+                    ex.error = "%s: %s" % (type(e).__name__, e)
+                col.evaluations += 1
+                col.checks["c05.history"] += 1
+                key = hash((info.key, hist, on_b))
+                col.transitions.add(key)
+                col.states.add(key)
+                col.nontrivial.add(key)
+                for v in check_status(ex, info, col, "h"):
+                    col.violation(dict(v, kind="history"))
+                if ex.error is None and int(b.project.status) != 1:
+                    col.violation(dict(M.V("C05", "C05:feasible-project-did-not-complete:after-history-with-default-keywords", ex, {"history": list(hist), "on_same_project": on_b, "time": b.project.time, "max_time": bound}), kind="history"))
+    return col
+
+
 def cut_items(tier):
     out = []
     flows = list(F.flows(3, F.KINDS4, (1, 2)))
@@ -206,6 +266,10 @@ def run(tier, seed):
     else:
         colb = stepcheck.explore(fe, [mon_feasible], H, D, who_fn=lambda sp: stepcheck.default_who(sp, facilities=False), seed=seed)
     colb.merge(stepcheck.explore(stepcheck.edited_items(names=("team-add-target", "worker-skill", "task-work", "worker-absence-inplace", "worker-solo", "add-link")), [mon_feasible], 0, 0, seed=seed))
+    # stopped mid-task and started again with the states reset (logs kept): still feasible
+    rs = stepcheck.restarted_items([it for it in fe if it[1]["rule"] == "TSLACK"][:: (6 if tier == "quick" else 2)], ks=(1, 2, 3))
+    colb.merge(stepcheck.explore(rs, [mon_feasible], 0, 0, seed=seed))
+    colb.merge(engines.fanout(history_items(tier), work_history, seed=seed))
     inf = infeasible_items(tier)
     colc = stepcheck.explore(inf, [mon_infeasible], 2, 1, who_fn=lambda sp: ["P"], seed=seed)
     cuts = cut_items(tier)
@@ -228,6 +292,9 @@ def run(tier, seed):
 
 
 def replay(v):
+    if v.get("kind") == "history":
+        col = work_history([v["spec"]])
+        return [x for x in col.violations if x["opts"].get("history") == v["opts"].get("history") and x["opts"].get("history_on_same_project") == v["opts"].get("history_on_same_project")]
     ex = runner.run(v["spec"], dict(v["opts"], phases=()))
     info = Info(v["spec"])
     col = engines.Collector()
